@@ -5,7 +5,7 @@ Driver (E5 in DESIGN.md): harness + /repo headers -> LLVM IR (clang++-14 -O1) ->
 -> cbmc + SAT solver.  Every query has a VP_WITNESS twin that must be *violated* (reachability / non-vacuity).
 Exit 0: every query verified and every witness reachable.  Exit 1: a property violation (VIOLATION line printed).
 Exit 2: the check itself is broken (encoder refused, time-out, witness unreachable, solver error)."""
-import sys, os, json, time, subprocess, tempfile, shutil, hashlib, itertools, argparse, resource, signal, re
+import sys, threading, os, json, time, subprocess, tempfile, shutil, hashlib, itertools, argparse, resource, signal, re
 import concurrent.futures as cf
 
 ROOT = os.path.dirname(os.path.abspath(__file__))
@@ -21,6 +21,7 @@ NCPU = os.cpu_count() or 4
 STRICT_REAL = True    # a VIOLATION is printed only if the counter-example also fails on the real compiled code (when that replay is available)
 
 
+MEM_BUDGET_GB = int(os.environ.get('VP_MEM_BUDGET_GB', '44'))
 MEM_UNWIND = ','.join(f'vp_mem{f}.{k}:{n}' for f, n in (('move_b', 34), ('move_w', 10), ('move_q', 10), ('move_p', 10), ('set_b', 34)) for k in (0, 1) if not (f == 'set_b' and k == 1))
 
 
@@ -29,9 +30,10 @@ HB_UNWIND = ','.join(f'{f}.{k}:14' for f in ('vp_hb_init', 'vp_hb_fork', 'vp_hb_
 
 class Query:
     def __init__(s, name, cpp, q, defines=(), unwind=3, unwindset=None, timeout=600, solvers=('kissat', 'minisat'), checks=None,
-                 witness=True, expect_witness=True, note='', mem_gb=24, extra_flags=(), must_cover=0, tv=True, cflags=(), object_bits=10, tv_order=None):
+                 witness=True, expect_witness=True, note='', mem_gb=24, extra_flags=(), must_cover=0, tv=True, cflags=(), object_bits=10, tv_order=None, est_gb=3):
         s.name, s.cpp, s.q, s.defines = name, cpp, q, tuple(defines)
         s.unwind, s.unwindset, s.timeout, s.solvers = unwind, unwindset, timeout, tuple(solvers)
+        s.est_gb = est_gb
         s.checks, s.witness, s.note, s.mem_gb = checks, witness, note, mem_gb
         s.extra_flags = tuple(extra_flags); s.must_cover = must_cover; s.tv = tv; s.cflags = tuple(cflags); s.object_bits = object_bits; s.tv_order = tv_order
 
@@ -283,6 +285,7 @@ class Runner:
         s.results = []
         s.t0 = time.time()
         s.decided = set(); s.procs = {}
+        s.mem_cv = threading.Condition(); s.mem_used = 0
 
     def cleanup(s):
         if not s.keep: shutil.rmtree(s.work, ignore_errors=True)
@@ -318,7 +321,18 @@ class Runner:
             return dict(rc=None, err='', timeout=False, seconds=0.0, rss_mb=0, cmd='', kind=kind, solver=solver, query=Q.name,
                         parsed=dict(status='cancelled', failed=[], nprops=0, messages=[], vars=None, clauses=None))
         def reg(p): s.procs.setdefault(key, []).append(p)
-        r = run_cbmc(cfile, flags, Q.timeout, Q.mem_gb, tmpdir, register=reg)
+        # memory governor: the estimated footprints (cbmc + external SAT solver) of the jobs running at once stay below MEM_BUDGET_GB
+        with s.mem_cv:
+            while s.mem_used and s.mem_used + Q.est_gb > MEM_BUDGET_GB: s.mem_cv.wait()
+            s.mem_used += Q.est_gb
+        try:
+            if key in s.decided:
+                return dict(rc=None, err='', timeout=False, seconds=0.0, rss_mb=0, cmd='', kind=kind, solver=solver, query=Q.name,
+                            parsed=dict(status='cancelled', failed=[], nprops=0, messages=[], vars=None, clauses=None))
+            r = run_cbmc(cfile, flags, Q.timeout, Q.mem_gb, tmpdir, register=reg)
+        finally:
+            with s.mem_cv:
+                s.mem_used -= Q.est_gb; s.mem_cv.notify_all()
         shutil.rmtree(tmpdir, ignore_errors=True)
         r['kind'] = kind; r['solver'] = solver; r['query'] = Q.name
         if key in s.decided and r['rc'] not in (0, 10):
@@ -393,7 +407,7 @@ def classify(entry):
         if all('unwinding assertion' in (f['description'] or '') for f in viol['parsed']['failed']):
             return 'broken', 'unwinding bound too small: ' + '; '.join((f['description'] or '') + ' ' + str(f['property']) for f in viol['parsed']['failed'])
         return 'violated', viol
-    if 'success' in statuses and not (statuses - {'success', 'timeout'}): statuses = {'success'}   # a slower back end timing out does not matter
+    if 'success' in statuses and not (statuses - {'success', 'timeout', 'error'}): statuses = {'success'}   # a slower back end timing out / hitting its memory cap does not matter: same formula, one complete verdict
     if statuses != {'success'}: return 'broken', f"verify runs: {sorted(statuses)} " + '; '.join((r['parsed']['messages'] or [''])[0] for r in ver)[:300]
     if Q.witness:
         if not wit: return 'broken', 'witness did not run'
